@@ -110,7 +110,7 @@ def qs(x):
         return 'N'
     x = float(x)
     if math.isnan(x):
-        return 'N'
+        return 'nan'
     if math.isinf(x):
         return 'inf' if x > 0 else '-inf'
     v = x * 4
@@ -120,7 +120,8 @@ def qs(x):
 
 
 def state_str(r):
-    return ','.join([qs(r.start), qs(r.end), '1' if r.absolute else '0', qs(float(r.p1_t0)),
+    t0 = float(r.p1_t0)
+    return ','.join([qs(r.start), qs(r.end), '1' if r.absolute else '0', 'N' if math.isnan(t0) else qs(t0),
                      '1' if r._range_specified else '0', '1' if r._in_range_started else '0',
                      '1' if r._in_range_ended else '0'])
 
